@@ -142,6 +142,26 @@ def correspondence(rep, ctx, ncases=None):
                 rep.violation("failing-input", f"{'Inventory' if cls == 'float' else 'InventoryHP'}({contents!r}, {unit!r})"
                               f".cumulative_decays({t!r}, {tu!r}): {msg}",
                               {"call": "cumulative_decays", "cls": cls, "contents": contents, "unit": unit, "t": t, "tu": tu}, True)
+    # t = 0 and the key set, both classes, in several units: exactly the radioactive chain members, every value 0
+    for k_ in range(12 if thorough else 5):
+        contents, unit = gen.inventory(max_n=3)
+        idxs = [view.index[rd.utils.parse_nuclide_str(n)] for n in contents]
+        want = sorted(view.names[i] for i in view.descendants(idxs) if view.rate[i] != 0)
+        for Cc in (rd.Inventory, rd.InventoryHP):
+            for t0, tu0 in ((0, "s"), (0.0, "y"), (0.0, "ms")):
+                desc = f"{Cc.__name__}({contents!r}, {unit!r}).cumulative_decays({t0!r}, {tu0!r})"
+                rep.case(("zero-time", k_, Cc.__name__, tu0))
+                gen._count("cumulative:t=0")
+                try:
+                    cum0 = Cc(dict(contents), unit).cumulative_decays(t0, tu0)
+                    if sorted(cum0) != want:
+                        raise AssertionError(f"lists {sorted(set(cum0) ^ set(want))[:4]} although only radioactive chain members "
+                                             "have decays (stable nuclides are never listed)")
+                    if any(float(v) != 0.0 for v in cum0.values()):
+                        raise AssertionError("non-zero decays at t = 0")
+                except Exception as e:  # noqa: BLE001
+                    bad += 1
+                    rep.violation("failing-input", f"{desc}: {type(e).__name__}: {e}", {"call": "cumulative_decays-zero", "contents": contents, "unit": unit}, True)
     import synthetic
     bad += synthetic.decay_block(rep, ctx, "c03/synthetic", kinds=("cumulative_decays",))
     bad += synthetic.decay_block(rep, ctx, "c03/synthetic-hp", kinds=("cumulative_decays",), ndatasets=(4 if thorough else 1), per=2, hp=True)
